@@ -684,6 +684,155 @@ def _fold_not_switches(f):
     return n
 
 
+def _mentions(f, local):
+    """[(block id, 'stmt'|'term', index, how)] for every mention of `local` in non-cleanup blocks; how in def|ref-mut|ref|use|other"""
+    out = []
+
+    def place_has(p):
+        return p is not None and (p["local"] == local or any(e["k"] == "index" and e.get("local") == local for e in p["proj"]))
+
+    def op_has(o):
+        return isinstance(o, dict) and place_has(o.get("move") or o.get("copy"))
+    for b in f["blocks"]:
+        if b["cleanup"]:
+            continue
+        for i, st in enumerate(b["stmts"]):
+            if st["k"] not in ("assign", "setdiscr"):
+                if st["k"] not in ("storage", "nop") and local in [v for v in st.values() if isinstance(v, int)]:
+                    pass
+                continue
+            rv = st.get("rv") or {}
+            if place_has(st["place"]):
+                out.append((b["id"], "stmt", i, "def" if st["place"]["local"] == local and not st["place"]["proj"] else "other"))
+            if "ref" in rv and place_has(rv["ref"]):
+                out.append((b["id"], "stmt", i, ("ref-mut" if rv.get("mut") else "ref") if rv["ref"]["local"] == local and not rv["ref"]["proj"] else "other"))
+            for k, v in rv.items():
+                if k in ("use", "op", "l", "r", "repeat") and op_has(v):
+                    out.append((b["id"], "stmt", i, "use"))
+                elif k == "ops" and any(op_has(o) for o in v):
+                    out.append((b["id"], "stmt", i, "use"))
+                elif k in ("discriminant", "len", "addr") and isinstance(v, dict) and place_has(v):
+                    out.append((b["id"], "stmt", i, "other"))
+        t = b["term"]
+        if t["k"] in ("call", "tailcall"):
+            if place_has(t.get("dest")):
+                out.append((b["id"], "term", -1, "def" if t["dest"]["local"] == local and not t["dest"]["proj"] else "other"))
+            for j, a in enumerate(t.get("args") or []):
+                if op_has(a):
+                    out.append((b["id"], "term", j, "use"))
+        elif t["k"] == "switch" and op_has(t.get("discr")):
+            out.append((b["id"], "term", -1, "other"))
+        elif t["k"] == "drop" and place_has(t.get("place")):
+            out.append((b["id"], "term", -1, "drop"))
+        elif t["k"] == "assert":
+            for k in ("cond", "len", "index", "l", "r"):
+                if op_has(t.get(k)):
+                    out.append((b["id"], "term", -1, "other"))
+    return out
+
+
+def _canon_extend_built_vec(f, bid):
+    """`a.extend(v)` where v is a local Vec that was created empty, filled only by `push`, and handed to nothing else (typically the
+    result of an inlined `fn many() -> Vec<T>` or of a collected pipeline), while `a` is not touched in between: the pushes go to `a`
+    directly. Written that way in the view (the receiver of every such push becomes `a`, the extend disappears)."""
+    b = f["blocks"][bid]
+    t = b["term"]
+    if b["cleanup"] or t["k"] != "call" or t.get("name") != "extend" or t.get("trait") != "std::iter::Extend" or t.get("target") is None or len(t["args"]) != 2:
+        return False
+    if t.get("self_adt") != "std::vec::Vec" or not (t.get("gargs") or []) or not (t["gargs"][-1] or "").startswith("std::vec::Vec<"):
+        return False
+    vp = t["args"][1].get("move")
+    rp = t["args"][0].get("move")
+    if not vp or vp["proj"] or not rp or rp["proj"]:
+        return False
+    V, R = vp["local"], rp["local"]
+    # the receiver: R = &mut <place A>, defined once
+    rdefs = [(bb, k, i, how) for (bb, k, i, how) in _mentions(f, R) if how == "def"]
+    if len(rdefs) != 1 or rdefs[0][1] != "stmt":
+        return False
+    rst = f["blocks"][rdefs[0][0]]["stmts"][rdefs[0][2]]
+    if "ref" not in (rst.get("rv") or {}) or not rst["rv"].get("mut"):
+        return False
+    A = rst["rv"]["ref"]
+    if any(e["k"] == "index" for e in A["proj"]):
+        return False
+    # v: one empty constructor, `&mut v` feeding push, the move into this extend, drops
+    ms = _mentions(f, V)
+    inits, refs = [], []
+    for (bb, k, i, how) in ms:
+        blk = f["blocks"][bb]
+        if how == "def" and k == "term" and blk["term"].get("name") in ("new", "with_capacity") and blk["term"].get("self_adt") == "std::vec::Vec":
+            inits.append(bb)
+        elif how == "ref-mut":
+            refs.append((bb, i))
+        elif how == "use" and k == "term" and bb == bid and i == 1:
+            pass
+        elif how == "drop":
+            pass
+        else:
+            return False
+    if len(inits) != 1 or not refs:
+        return False
+    push_blocks = []
+    for (bb, i) in refs:
+        T = f["blocks"][bb]["stmts"][i]["place"]
+        if T["proj"]:
+            return False
+        tm = _mentions(f, T["local"])
+        uses = [(b2, k2, i2, h2) for (b2, k2, i2, h2) in tm if h2 != "def"]
+        if len(uses) != 1 or uses[0][1] != "term" or uses[0][2] != 0:
+            return False
+        pt = f["blocks"][uses[0][0]]["term"]
+        if pt.get("name") != "push" or pt.get("self_adt") != "std::vec::Vec":
+            return False
+        push_blocks.append(uses[0][0])
+    # `a` is not mentioned between the constructor of v and the extend (other than by the receiver borrow itself)
+    region = _reach_between(f, inits[0], bid)
+    if region is None:
+        return False
+    for (bb, k, i, how) in _mentions(f, A["local"]):
+        if bb in region and not (bb == rdefs[0][0] and k == "stmt" and i == rdefs[0][2]):
+            if bb == inits[0] and k == "stmt":
+                continue   # statements of the constructor's block run before it
+            return False
+    if any(pb not in region for pb in push_blocks):
+        return False
+    for (bb, i) in refs:
+        f["blocks"][bb]["stmts"][i]["rv"] = {"ref": copy.deepcopy(A), "mut": True}
+        f["blocks"][bb]["stmts"][i]["synth"] = True
+    b["desugared_call"] = t
+    b["term"] = {"k": "goto", "target": t["target"], "line": t.get("line"), "exp": "desugar:ExtendBuiltVec"}
+    return True
+
+
+def _reach_between(f, src, dst):
+    """blocks on some path src -> dst (both included), or None when dst is not reachable from src"""
+    succ = {bb["id"]: [x for x in _succs(bb["term"])] for bb in f["blocks"] if not bb["cleanup"]}
+    fwd, stack = set(), [src]
+    while stack:
+        x = stack.pop()
+        if x in fwd or x not in succ:
+            continue
+        fwd.add(x)
+        if x != dst:
+            stack.extend(succ[x])
+    if dst not in fwd:
+        return None
+    pred = {}
+    for a, ss in succ.items():
+        for s_ in ss:
+            pred.setdefault(s_, []).append(a)
+    bwd, stack = set(), [dst]
+    while stack:
+        x = stack.pop()
+        if x in bwd:
+            continue
+        bwd.add(x)
+        if x != src:
+            stack.extend(pred.get(x, []))
+    return fwd & bwd
+
+
 def _canon_extend_option(f, bid):
     """`vec.extend(opt)` with opt: Option<T> is `if let Some(x) = opt { vec.push(x) }`: written that way in the view"""
     b = f["blocks"][bid]
@@ -1950,6 +2099,12 @@ class Views:
                 if len(f["blocks"]) + len(h["blocks"]) > MAX_VIEW_BLOCKS:
                     continue
                 _splice(f, bid, h, cn)
+            # `a.extend(v)` with v built by pushes only (an inlined `fn many() -> Vec<T>`, a collected pipeline): the pushes go to `a`
+            for bid in [b["id"] for b in f["blocks"] if not b["cleanup"]]:
+                try:
+                    _canon_extend_built_vec(f, bid)
+                except Exception:
+                    pass
             # a helper spliced with a literal `None` / `Some(x)` argument and dispatching on it (`fn rules(aud: Option<&str>)` called once
             # with None and once with Some): the parameter copy has one definition, so the dispatch is decided at that call site
             try:
